@@ -21,9 +21,12 @@ from pyvc import sym
 from contracts import solver as S
 
 PROPS = {"C15"}
-# the 2-safety completeness statement is also what C02 ("for every halo width") and C12 ("history does not
-# matter") need of a solve that is handed a cache: a request never receives the result of a different request
-PROPS_REL = {"C15", "C02", "C12"}
+# the 2-safety completeness statement is also what every property of the solver needs of a solve that is handed a
+# cache (the `cache=` argument is part of the public call each of them quantifies over): a request never receives the
+# result of a different request, so the statement proved for the uncached solve carries over.  (First C02 "for every halo
+# width" and C12 "history does not matter" only; seeded C04_10 -- background dropped from the key, entries stored with the
+# first caller's background -- breaks "background only adds a uniform offset" through the cache alone.)
+PROPS_REL = {"C15", "C12", "C01", "C02", "C03", "C04", "C05", "C06", "C07", "C10", "C11"}
 MATH = {"pi", "csqrt_re", "csqrt_im", "cis_re", "cis_im", "cexp_re", "cexp_im", "exp", "log", "sqrt",
         "sin", "cos", "str_float", "str_int"}
 
